@@ -40,6 +40,7 @@ import EngineModel.Db.V2Crates
 import EngineModel.Db.V2Wf
 import EngineModel.Api.C15TracksV2
 import EngineModel.Table.Names
+import EngineModel.Spec.Stmts
 
 namespace EngineModel.Lib.V2
 
@@ -207,6 +208,21 @@ def removeTrack (s : Schema2) (t : Nat) : M2 Unit :=
     -- library_->track().remove(tr.id())   (DELETE; rows_modified() == 0 → invalid_argument)
     M2.track (callRemove t)
 
+/-- `database_impl::remove_track` as a statement program on the connection of `Spec/Txn.lean` (the fault model of
+C14: the k-th faultable statement — BEGIN, every DELETE / UPDATE, COMMIT — fails): BEGIN; per playlist the lookup
+(a read) and the DELETE of the entry; before 2.20.3 the UPDATE of ChangeLog; the DELETE of the track, which
+(through `rows_modified() == 0 → invalid_argument`) fails the call when there is no such row; COMMIT. -/
+def removeTrackBody (s : Schema2) (L : Lib2) (t : Nat) : List (Spec.Txn.Cmd Lib2) :=
+  ((ids L.pl).flatMap fun l =>
+    [Spec.Txn.Cmd.read, Spec.Stmts.tot fun (M : Lib2) => { M with pe := EngineModel.Db.V2.rmTrackIn (t : Int) M.pe l }]) ++
+  (if hasChangeLog s then [Spec.Stmts.tot fun (M : Lib2) => M.logNullify t] else []) ++
+  [.write fun (M : Lib2) =>
+    if (M.tdb.rows.filter fun e => e.id == t).length = 0 then none
+    else some { M with tdb := { M.tdb with rows := M.tdb.rows.filter fun e => !(e.id == t) } }]
+
+def removeTrackStmts (s : Schema2) (L : Lib2) (t : Nat) : List (Spec.Txn.Cmd Lib2) :=
+  Spec.Stmts.txn (removeTrackBody s L t)
+
 /-! ### the call alphabet: every public operation of `database`, `crate` and `track` on a 2.x library -/
 
 inductive Call where
@@ -361,6 +377,51 @@ def step (ops : FOps) (s : Schema2) (L : Lib2) : Call → Lib2 × Res Out
 
 /-- any history, whatever the outcomes of its calls (failed calls included) -/
 def run (ops : FOps) (s : Schema2) (L : Lib2) (h : List Call) : Lib2 := h.foldl (fun L c => (step ops s L c).1) L
+
+/-! ### everything observable, and reloading (C10)
+
+Handles hold no state of their own: `v2::track_impl` = (`library_`, the `track_table` accessor, the id inherited
+from `djinterop::track_impl`), `v2::crate_impl` = (`library_`, the `playlist_table` / `playlist_entity_table`
+accessors, the id) — no cached row, no cached column; every accessor queries the connection.  So a handle IS its
+id (the `Call`s take ids), and what a client can observe is a function of the stored tables. -/
+
+def allGetters : List Getter :=
+  [.album, .artist, .averageLoudness, .beatgrid, .bitrate, .bpm, .comment, .composer, .duration, .fileExtension,
+   .filename, .genre, .hotCues, .key, .lastPlayedAt, .loops, .mainCue, .publisher, .rating, .relativePath, .sampleCount,
+   .sampleRate, .title, .trackNumber, .waveform, .year] ++
+  (List.range 9).flatMap fun i => [EngineModel.Api.C15TracksV2.Getter.hotCueAt (UInt32.ofNat i), EngineModel.Api.C15TracksV2.Getter.loopAt (UInt32.ofNat i)]
+
+/-- every observer call on every crate and track the database lists (and on the given extra handles — ids the
+client still holds, e.g. of removed objects) + the database-level observers -/
+def observers (L : Lib2) (crateHandles : List Int) (trackHandles : List Nat) : List Call :=
+  let cs := (ids L.pl) ++ crateHandles
+  let ts := (L.tdb.rows.map (·.id)) ++ trackHandles
+  let names := (L.pl.map (·.val)).eraseDups
+  [Call.crates, .rootCrates, .tracks, .uuid, .versionName] ++
+  names.flatMap (fun n => [Call.cratesByName n, .rootCrateByName n]) ++
+  (L.tdb.rows.map fun t => Call.tracksByRelativePath t.row.path) ++
+  cs.flatMap (fun c => [Call.crateById c, .crateName c, .crateParent c, .crateChildren c, .crateDescendants c,
+    .crateIsValid c, .crateTracks c] ++ names.map fun n => Call.crateSubByName c n) ++
+  ts.flatMap (fun (t : Nat) => [Call.trackById (t : Int), .trackIsValid t, .trackSnapshot t] ++ allGetters.map fun g => Call.trackGet t g)
+
+def observeAll (ops : FOps) (s : Schema2) (L : Lib2) (crateHandles : List Int) (trackHandles : List Nat) :
+    List (Call × Res Out) :=
+  (observers L crateHandles trackHandles).map fun c => (c, (step ops s L c).2)
+
+/-- A client session: the connection (committed library + the working copy of an open transaction, `Spec/Txn.lean`)
+and the handles the client holds (ids). -/
+structure Session where
+  conn : Spec.Txn.Conn Lib2
+  crateHandles : List Int
+  trackHandles : List Nat
+
+/-- release every handle, close, load again: a new connection on what was committed; no handle is held (a client
+re-obtains them by id: `crate_by_id`, `track_by_id`) -/
+def Session.reload (S : Session) : Session := ⟨S.conn.reopen, [], []⟩
+
+/-- what the session's client observes: through the database and through the handles it holds -/
+def Session.observe (ops : FOps) (s : Schema2) (S : Session) : List (Call × Res Out) :=
+  observeAll ops s S.conn.view S.crateHandles S.trackHandles
 
 /-! ### how a call of the composite shows to each package (for transporting the packages' history theorems)
 
